@@ -152,6 +152,49 @@ def run(tier, seed):
             want = {k: fnmod.n4(sp, k) for k in mat}
             if got != want:
                 rep.violation("C15:map-over-range-differs", "map_over_range returned %r, individual calls give %r" % (got, want), {"values": mat, "one_shot_iterable": expect_keys is None})
+        # (c) scalar arguments that Python considers equal but that are different calls (1 / 1.0 / True, 0 / 0.0 / False / -0.0,
+        # equal instants with different offsets), mixed in one batch, with true duplicates, partial prefixes and map_over_range
+        import datetime
+        from twosigma.memento.storage_memory import MemoryStorageBackend
+        from . import fnlib, sigmod
+        utc = datetime.timezone.utc
+        plus1 = datetime.timezone(datetime.timedelta(hours=1))
+        pool = [1, 1.0, True, 0, 0.0, False, -0.0, "1", 2, datetime.datetime(2021, 3, 4, 12, 0, tzinfo=utc), datetime.datetime(2021, 3, 4, 13, 0, tzinfo=plus1)]
+        stats["python_equal_batches"] = 0
+        for bi in range(12 if tier == "quick" else 150):
+            elems = [rng.choice(pool) for _ in range(rng.randint(2, 7))]
+            how = rng.choice(["batch", "batch-partial", "map"])
+            outs = {}
+            for mode in ("batched", "elementwise"):
+                fnlib.set_env(m, scratch, {sigmod.CL: (MemoryStorageBackend(), None)})
+                tr = fnlib.Trace()
+                f = sigmod.tv.partial(b=5) if how == "batch-partial" else sigmod.tv
+                try:
+                    if mode == "elementwise":
+                        res = [f(a=v) for v in elems]
+                    elif how == "map":
+                        mp = f.map_over_range(a=elems)
+                        res = [mp[v] for v in elems] if isinstance(mp, dict) else list(mp)
+                    else:
+                        res = f.call_batch([{"a": v} for v in elems], raise_first_exception=True)
+                except Exception as e:
+                    res = "raised %s: %s" % (type(e).__name__, str(e)[:80])
+                outs[mode] = (res, len([e for e in tr.events if e[0] == "body"]))
+            total += 1
+            stats["python_equal_batches"] += 1
+            meta = {"elements": [repr(v) for v in elems], "how": how, "batched": outs["batched"], "elementwise": outs["elementwise"]}
+            if how == "map":
+                # a mapping keyed by the range values cannot tell Python-equal keys apart: compare per distinct-by-equality value, last one wins in both
+                want = {}
+                for v, r_ in zip(elems, outs["elementwise"][0]):
+                    want[v] = r_
+                got = dict(zip(elems, outs["batched"][0])) if isinstance(outs["batched"][0], list) else outs["batched"][0]
+                if got != want:
+                    rep.violation("C15:map-over-range-differs-from-elementwise", "map_over_range gave %r, individual calls give %r" % (got, want), meta)
+            elif outs["batched"][0] != outs["elementwise"][0]:
+                rep.violation("C15:batch-differs-from-elementwise:python-equal-values", "call_batch returned %r, individual calls return %r" % (outs["batched"][0], outs["elementwise"][0]), meta)
+            if outs["batched"][1] != outs["elementwise"][1]:
+                rep.violation("C15:batch-executions-differ:python-equal-values", "the batch executed %d bodies, individual calls %d" % (outs["batched"][1], outs["elementwise"][1]), meta)
         try:
             res = C.run_coq_cases("c15", R.HEADER, terms, "run_case", shard=200,
                                   case_type="list (nat * ndef) * list (nat * nat) * (nat * nat) * (outcome * list nat * list key * list nat)")
